@@ -200,6 +200,242 @@ def check_sentinels(P, R, rid):
 
 
 
+def check_short_window_decisions(P, R, rid):
+    """A scanner method that compares a K-byte window of the current chunk (`chunk[a:a + K]`, K >= 2) with a K-byte constant may only reject on a mismatch once
+    it knows the window is complete: a chunk that ends inside those K bytes shows a shorter window, which matches nothing.  Every way from the mismatch edge to a
+    `raise` passes a test of the window's length (before or after the comparison)."""
+    n = 0
+    for m in P.all_funcs():
+        if m.module.name != MP or isinstance(m.node, ast.Lambda) or len(m.params) < 2:
+            continue
+        g, rd = m.cfg, m.rd
+        chunk_p = m.params[1] if m.params[0] in ('self', 'cls') else m.params[0]
+        if chunk_p not in ('chunk', 'data', 'buf', 'buffer') and 'chunk' not in chunk_p:
+            continue
+        raises = [x for x in g.nodes if x.kind == 'stmt' and isinstance(x.ast, ast.Raise) and x in g.reachable()]
+        if not raises:
+            continue
+        for tn in g.nodes:
+            if tn.kind != 'test' or tn.ast is None:
+                continue
+            for x in ast.walk(tn.ast):
+                cp = compare_parts(x) if isinstance(x, ast.Compare) else None
+                if not (cp and cp[1] in (ast.Eq, ast.NotEq)):
+                    continue
+                for (w_, c_) in ((cp[0], cp[2]), (cp[2], cp[0])):
+                    wx = w_
+                    if isinstance(w_, ast.Name):
+                        ds_ = rd.at(tn, w_.id)
+                        if len(ds_) == 1 and ds_[0].kind == 'assign' and ds_[0].value is not None:
+                            wx = ds_[0].value
+                    if not (isinstance(wx, ast.Subscript) and isinstance(wx.slice, ast.Slice) and isinstance(wx.value, ast.Name) and wx.value.id == chunk_p
+                            and wx.slice.upper is not None and wx.slice.step is None):
+                        continue
+                    try:
+                        cv = T.ceval(m, c_)
+                    except T.CannotEval:
+                        continue
+                    if not isinstance(cv, (bytes, str)) or len(cv) < 2:
+                        continue
+                    lo = wx.slice.lower if wx.slice.lower is not None else ast.Constant(value=0)
+                    width = _lin_const_diff(m, wx.slice.upper, lo)
+                    if width != len(cv):
+                        continue
+                    n += 1
+                    wname = w_.id if isinstance(w_, ast.Name) else None
+                    len_tests = [t for t in g.nodes if t.kind == 'test' and t.ast is not None and any(
+                        isinstance(y, ast.Call) and dotted(y.func) == 'len' and y.args and (src(y.args[0]) == src(w_) or (wname and src(y.args[0]) == wname))
+                        for y in ast.walk(t.ast))]
+                    neg = strip_not(tn.ast)[1] if strip_not(tn.ast)[0] is x else False
+                    mismatch = ('true' if cp[1] is ast.NotEq else 'false')
+                    if neg:
+                        mismatch = 'false' if mismatch == 'true' else 'true'
+                    before = any(g.dominates(t, tn) for t in len_tests)
+                    succ = T.succ_by_label(tn, mismatch)
+                    bad = [] if before else [r for r in raises if any(s_ not in len_tests and (s_ is r or g.can_reach(s_, r, avoid_nodes=len_tests)) for s_ in succ)]
+                    R.ob(rid, m, x, not bad, text=f'`{short(x)}`: a {len(cv)}-byte window of the chunk; no rejection before its length is known', detail='' if not bad else
+                         f'`{short(x)}` looks at {len(cv)} bytes of the current chunk and `{short(bad[0].ast)}` is reached on a mismatch without any test of the window\'s length: when '
+                         f'the chunk ends inside those {len(cv)} bytes the window is shorter, cannot match, and a well-formed body is refused only because of where the buffer '
+                         f'boundary fell',
+                         why='every division of a well-formed body gives the same result as parsing it in one piece', key_extra='short-window')
+    return n
+
+
+def check_eater_reset(P, R, rid):
+    """whenever the header eater reports the end of a header block (a position, not None), it is back in its initial state - the method that looks at what
+    follows the next delimiter (CRLF or the closing hyphens) - before that delimiter is met: the reset stands in eat() behind the call, or in front of every
+    position-returning exit of the header method itself"""
+    cls = P.cls(f'{MP}:HeadersEaeter')
+    init, eat = cls.methods.get('__init__'), cls.methods.get('eat')
+    if init is None or eat is None:
+        return
+    first = [st.value for st in walk_shallow(init.node) if isinstance(st, ast.Assign) and any(dotted(t) == 'self.eat_meth' for t in st.targets)]
+    if len(first) != 1 or not dotted(first[0]):
+        return
+    start_meth = dotted(first[0])
+
+    def resets(fn):
+        return [n for n in fn.cfg.nodes if n.kind == 'stmt' and isinstance(n.ast, ast.Assign) and any(dotted(t) == 'self.eat_meth' for t in n.ast.targets)
+                and dotted(n.ast.value) == start_meth]
+
+    def none_ret(r):
+        return r.value is None or is_const(r.value, None)
+    hdr = cls.methods.get('_eat_headers')
+    g = eat.cfg
+    s_eat = resets(eat)
+    for r in [n for n in walk_shallow(eat.node) if isinstance(n, ast.Return) and not none_ret(n)]:
+        if isinstance(r.value, ast.Call) and dotted(r.value.func) == 'self.eat':
+            continue
+        rn = g.node_of_stmt(r)[0]
+        if s_eat and g.must_pass(g.entry, rn, s_eat):
+            R.ob(rid, eat, r, True, text=f'{short(r)}: the eater is reset before a header end is reported')
+            continue
+        via_hdr = hdr is not None and any(isinstance(x, ast.Call) and dotted(x.func) == 'self._eat_headers' for x in eat.rd.closure_nodes(r.value, rn))
+        bad = None
+        if via_hdr:
+            hg = hdr.cfg
+            s_h = resets(hdr)
+            for hr in [n for n in walk_shallow(hdr.node) if isinstance(n, ast.Return) and not none_ret(n)]:
+                hn = hg.node_of_stmt(hr)[0]
+                if not (s_h and hg.must_pass(hg.entry, hn, s_h)):
+                    bad = (hdr, hr)
+                    break
+        else:
+            bad = (eat, r)
+        R.ob(rid, bad[0] if bad else eat, bad[1] if bad else r, bad is None, text=f'{short(r)}: the eater is reset before a header end is reported', detail='' if bad is None else
+             f'`{short(bad[1])}` reports the end of a header block while `self.eat_meth` keeps the header method: after the next delimiter the bytes that follow it are not '
+             f'looked at as "CRLF or closing hyphens", so a closing delimiter goes unrecognised - and that only for the divisions that take this exit (a header terminator '
+             f'cut by a buffer boundary)',
+             why='every division of a well-formed body gives the same result as parsing it in one piece', key_extra='eater-reset')
+
+
+def check_method_identity(P, R, rid):
+    """`obj.method` builds a new bound-method object at every access: two of them for the same method are equal but not identical, so a method value kept from
+    an earlier call (`self.cur_meth`) must be compared with `==`, never with `is`"""
+    meth_names = {mn for c in P.classes.values() if c.module.name == MP for mn in c.methods}
+    n = 0
+    for m in P.all_funcs():
+        if m.module.name != MP or isinstance(m.node, ast.Lambda):
+            continue
+        rd = m.rd
+
+        def is_method_value(e, at, depth=0):
+            if isinstance(e, ast.Attribute) and e.attr in meth_names and (dotted(e) or '').startswith('self'):
+                return True
+            if isinstance(e, ast.Name) and rd.is_local(e.id) and depth < 3:
+                ds = rd.at(at, e.id)
+                return any(d.value is not None and is_method_value(d.value, d.node, depth + 1) for d in ds)
+            return False
+        for tn in m.cfg.nodes:
+            if tn.ast is None or tn.kind not in ('test', 'stmt'):
+                continue
+            for x in ast.walk(tn.ast):
+                cp = compare_parts(x) if isinstance(x, ast.Compare) else None
+                if not (cp and cp[1] in (ast.Is, ast.IsNot)) or is_const(cp[0], None) or is_const(cp[2], None):
+                    continue
+                if is_method_value(cp[0], tn) or is_method_value(cp[2], tn):
+                    n += 1
+                    R.ob(rid, m, x, False, text=f'`{short(x)}` compares method values by equality', detail=
+                         f'`{short(x)}` compares bound-method objects by identity: every `self.<method>` access creates a new object, so the value saved at the end of the '
+                         f'previous chunk is never identical to the one taken now - the state is not recognised and the scanner takes the wrong branch whenever a part spans '
+                         f'two chunks',
+                         why='every division of a well-formed body gives the same result as parsing it in one piece', key_extra='method-identity')
+    return n
+
+
+def check_bytes_vs_int(P, R, rid):
+    """in the byte scanner: a bytes value (a window `chunk[a:b]`, a byte constant) is never compared with `b[k]`, an element of a bytes object - that is an int,
+    and the two are never equal"""
+    n = 0
+    for m in P.all_funcs():
+        if m.module.name != MP or isinstance(m.node, ast.Lambda):
+            continue
+        byt = set()
+        for a in m.node.args.args + m.node.args.kwonlyargs:
+            if a.annotation is not None and src(a.annotation) in ('bytes', 'bytearray', 'memoryview'):
+                byt.add(a.arg)
+        if not byt:
+            continue
+        for _ in range(3):
+            for st in walk_shallow(m.node):
+                if isinstance(st, ast.Assign) and len(st.targets) == 1 and isinstance(st.targets[0], ast.Name):
+                    v = st.value
+                    if isinstance(v, ast.Subscript) and isinstance(v.slice, ast.Slice) and isinstance(v.value, ast.Name) and v.value.id in byt:
+                        byt.add(st.targets[0].id)
+                    else:
+                        try:
+                            if isinstance(T.ceval(m, v), bytes):
+                                byt.add(st.targets[0].id)
+                        except T.CannotEval:
+                            pass
+                if isinstance(st, ast.Call) and call_attr(st) in ('startswith', 'endswith', 'find', 'rfind', 'index', 'split', 'partition', 'count') \
+                        and isinstance(st.func.value, ast.Name) and st.func.value.id in byt:
+                    for a in st.args[:1]:
+                        if isinstance(a, ast.Name):
+                            byt.add(a.id)
+
+        def is_bytes(e):
+            if isinstance(e, ast.Name):
+                if e.id in byt:
+                    return True
+                try:
+                    return isinstance(T.ceval(m, e), bytes)
+                except T.CannotEval:
+                    return False
+            if isinstance(e, ast.Constant):
+                return isinstance(e.value, bytes)
+            if isinstance(e, ast.Subscript) and isinstance(e.slice, ast.Slice):
+                return is_bytes(e.value)
+            return False
+        for x in walk_shallow(m.node):
+            cp = compare_parts(x) if isinstance(x, ast.Compare) else None
+            if not (cp and cp[1] in (ast.Eq, ast.NotEq)):
+                continue
+            for (a, b) in ((cp[0], cp[2]), (cp[2], cp[0])):
+                if is_bytes(a) and isinstance(b, ast.Subscript) and not isinstance(b.slice, ast.Slice) and is_bytes(b.value):
+                    n += 1
+                    R.ob(rid, m, x, False, text=f'`{short(x)}` compares bytes with bytes', detail=
+                         f'`{short(b)}` is one element of a bytes object, an int, and `{short(a)}` is a bytes value: the two are never equal, so `{short(x)}` is '
+                         f'{"always true" if cp[1] is ast.NotEq else "never true"} whatever the input - a decision that is only reached for some divisions of the body '
+                         f'(here: when the first chunk is shorter than the opening delimiter) then always goes one way',
+                         why='every division of a well-formed body gives the same result as parsing it in one piece', key_extra='bytes-vs-int')
+    return n
+
+
+def _lin_const_diff(m, hi, lo):
+    """hi - lo as an integer when it is a constant (module constants resolved), else None"""
+    from .c19 import Lin
+
+    def lin(e):
+        if isinstance(e, ast.Constant) and type(e.value) is int:
+            return Lin(e.value)
+        if isinstance(e, ast.Name):
+            try:
+                v = T.ceval(m, e)
+                if type(v) is int:
+                    return Lin(v)
+            except T.CannotEval:
+                pass
+            return Lin.sym(e.id)
+        if isinstance(e, ast.BinOp) and isinstance(e.op, (ast.Add, ast.Sub)):
+            a, b = lin(e.left), lin(e.right)
+            if a is None or b is None:
+                return None
+            return a + b if isinstance(e.op, ast.Add) else a - b
+        if isinstance(e, ast.Call) and dotted(e.func) == 'len' and len(e.args) == 1:
+            try:
+                v = T.ceval(m, e.args[0])
+                return Lin(len(v))
+            except (T.CannotEval, TypeError):
+                return Lin.sym(src(e))
+        return None
+    a, b = lin(hi), lin(lo)
+    if a is None or b is None:
+        return None
+    d = a - b
+    return d.c if not d.t else None
+
+
 def check_minus_one_sentinels(P, R, rid):
     """offsets that use -1 for "not there" (`match.start(group)`, `str.find`): the test for "found" admits offset 0"""
     n = 0
@@ -532,6 +768,11 @@ def check(P, R):
 
     check_sentinels(P, R, 'C06.d')
     check_minus_one_sentinels(P, R, 'C06.d')
+    nw_ = check_short_window_decisions(P, R, 'C06.d')
+    check_bytes_vs_int(P, R, 'C06.d')
+    check_eater_reset(P, R, 'C06.e')
+    check_method_identity(P, R, 'C06.e')
+    R.ob('C06.d', f'{MP}', None, nw_ >= 1, text=f'{nw_} fixed-width window comparison(s) of the scanner examined', detail='' if nw_ else 'no fixed-width window comparison found (one on the pinned tree)', nontrivial=False)
     check_method_tables(P, R, 'C06.d')
     check_eater_identity(P, R, 'C06.e')
 
